@@ -48,6 +48,7 @@ def cases(draw, tier):
             if draw(st.integers(0, 3)) == 0:
                 extra["foo"] = draw(st.sampled_from(["bar", 7, [1, 2]]))
             g["extra"] = extra
+            g["params_as"] = draw(st.sampled_from(["list", "list", "list", "tuple", "generator"]))
         groups.append(g)
     return dict(groups=groups, layout=layout, family=family, allow=allow, lr=draw(lrs), weight_decay=draw(wds),
                 lr_kind=draw(st.sampled_from(["float", "float", "tensor32", "tensor64"])), independent=draw(st.sampled_from([True, True, True, False])),
@@ -61,6 +62,9 @@ def mk_lr(kind, v):
 
 
 def snapshot(v):
+    import types
+    if isinstance(v, types.GeneratorType):
+        return ("val", "<generator>")   # consumed by design
     if isinstance(v, torch.Tensor):
         return ("tensor", id(v), v.detach().clone(), v._version)
     if isinstance(v, (list, tuple)):
@@ -92,7 +96,8 @@ def run(c) -> CaseResult:
             p = nn.Parameter(data) if spec["tag"] is None else uu.Parameter(data, spec["tag"], spec["depth"])
             ps.append(p)
         if c["layout"] == "groups":
-            d = dict(params=ps)
+            pa = g.get("params_as", "list")
+            d = dict(params=ps if pa == "list" else (tuple(ps) if pa == "tuple" else (q for q in ps)))
             lrv = c["lr"]
             if g["lr"] is not None:
                 if g["lr_shared"]:
